@@ -15,6 +15,10 @@ import (
 	"verifharness/mon"
 )
 
+// c15MaxLength is the maximum message length the property states (65,000
+// bytes); the library's own constant is deliberately not used here.
+const c15MaxLength = 65000
+
 func init() { register("C15", runC15) }
 
 const (
@@ -122,7 +126,7 @@ type udpModel struct {
 }
 
 func (m *udpModel) write(p []byte) bool {
-	if !m.open || len(m.buf)+len(p) > thriftudp.MaxLength {
+	if !m.open || len(m.buf)+len(p) > c15MaxLength {
 		return false
 	}
 	m.buf = append(m.buf, p...)
@@ -225,9 +229,9 @@ func c15SequenceOnce(c *mon.Ctx, seq []int, r *mon.Rand, enumerated bool) {
 					p = small()
 				case opFill:
 					// fill relative to the real buffer state the writer believes in (spec model)
-					p = bytes.Repeat([]byte{0xAB}, thriftudp.MaxLength-len(spec.buf))
+					p = bytes.Repeat([]byte{0xAB}, c15MaxLength-len(spec.buf))
 				case opOnePast:
-					p = bytes.Repeat([]byte{0xCD}, thriftudp.MaxLength-len(spec.buf)+1)
+					p = bytes.Repeat([]byte{0xCD}, c15MaxLength-len(spec.buf)+1)
 				}
 				// the bytes that reach (or cross) the limit arrive through Write,
 				// WriteString or WriteByte, depending on the position in the sequence
